@@ -250,8 +250,34 @@ class Pend:
         self.ctx.case((op, desc, hashlib.sha1(" ".join(str(t) for t in toks).encode()).hexdigest()), nontrivial=nontrivial,
                       sample={"op": op, "case": desc})
 
+    def start(self, nproc=4):
+        """launch the compiled model on the collected requests without waiting: the requests are split over up to `nproc`
+        driver processes, and the batches of different configurations run while the harness keeps calling the implementation"""
+        import subprocess, tempfile
+        from common import driver_path
+        reqs = self.drv.reqs
+        k = max(1, min(nproc, len(reqs) // 150))
+        size = (len(reqs) + k - 1) // k if reqs else 0
+        self._parts = []
+        for j in range(k if reqs else 0):
+            chunk = reqs[j * size:(j + 1) * size]
+            fin = tempfile.TemporaryFile(mode="w+")
+            fin.write("\n".join(chunk) + "\n"); fin.flush(); fin.seek(0)
+            fout, ferr = tempfile.TemporaryFile(mode="w+"), tempfile.TemporaryFile(mode="w+")
+            self._parts.append((subprocess.Popen([driver_path("C02")], stdin=fin, stdout=fout, stderr=ferr, text=True), fin, fout, ferr, len(chunk)))
+
     def finish(self):
-        out = self.drv.run()
+        if not hasattr(self, "_parts"):
+            self.start()
+        out = []
+        for proc, fin, fout, ferr, cnt in self._parts:
+            rc = proc.wait(timeout=3600)
+            fout.seek(0)
+            lines = fout.read().splitlines()
+            if rc != 0 or len(lines) != cnt:
+                ferr.seek(0)
+                raise RuntimeError(f"driver failed rc={rc} replies={len(lines)}/{cnt} {ferr.read()[-500:]}")
+            out += lines
         for op, desc, impl, i, kind, post in self.items:
             m = parse_reply(out[i])
             ok = False
@@ -274,23 +300,27 @@ class Pend:
 def correspondence(ctx):
     names = QUICK_CFGS if ctx.quick else THOROUGH_CFGS
     eps = q(Settings.get_atol())
+    pends = []
     for ci, name in enumerate(names):
         cfg = cfg_of(name)
         g = ctx.npgen(f"corr-{name}")
         big = cfg.d >= 6
         if big:
-            corr_big(ctx, cfg, g, eps)
+            pends.append(corr_big(ctx, cfg, g, eps))
             continue
         pend = Pend(ctx)
         corr_state_povm(ctx, pend, cfg, g, eps)
         corr_gate(ctx, pend, cfg, g, eps)
         corr_basis_change(ctx, pend, cfg, g)
         corr_kraus(ctx, pend, cfg, g, eps)
-        pend.finish()
+        pend.start()
+        pends.append(pend)
     for name in (QUICK_MULTI if ctx.quick else []):
-        corr_multi(ctx, cfg_of(name), ctx.npgen(f"corr-multi-{name}"))
-    corr_povm_tensor(ctx, ctx.npgen("corr-povm-tensor"))
-    corr_errors(ctx)
+        pends.append(corr_multi(ctx, cfg_of(name), ctx.npgen(f"corr-multi-{name}")))
+    pends.append(corr_povm_tensor(ctx, ctx.npgen("corr-povm-tensor")))
+    pends.append(corr_errors(ctx))
+    for pend in pends:
+        pend.finish()
 
 
 def corr_state_povm(ctx, pend, cfg, g, eps):
@@ -617,7 +647,8 @@ def corr_big(ctx, cfg, g, eps):
     ob = mb.get_comp_basis(d, "column_major")
     v = g.standard_normal(n)
     pend.add("convertVec", [d, n, Bq, d, n, cl(dense_basis(ob)), cl(v)], lambda: mb.convert_vec(v, c.basis(), ob), "c", f"{cfg.name}/convert_vec(->comp_col)/random")
-    pend.finish()
+    pend.start()
+    return pend
 
 
 def corr_errors(ctx):
@@ -639,7 +670,8 @@ def corr_errors(ctx):
         pend.add("convertHs", toks, lambda hs=hs, fb=fb, tb=tb: G.convert_hs(hs, fb, tb), "c", f"convert_hs/{lab}", nontrivial=True)
     pend.add("convertVec", [2, 4, c2.Bq, 3, 9, c3.Bq, cl(np.zeros(4))], lambda: mb.convert_vec(np.zeros(4), pauli, gm), "c", "convert_vec/lenMismatch")
     pend.add("convertVec", [2, 4, c2.Bq, 2, 5, overq, cl(np.zeros(4))], lambda: mb.convert_vec(np.zeros(4), pauli, over), "c", "convert_vec/lenMismatch2")
-    pend.finish()
+    pend.start()
+    return pend
 
 
 # ----------------------------------------------------------------------------- oracle
@@ -1111,7 +1143,8 @@ def corr_multi(ctx, cfg, g):
                 for i in range(len(hss)):
                     pend.add("convertToComp", hd + [cl(hss[i]), mode], lambda mp=mp, mode=mode, i=i: mp.convert_to_comp_basis(mode)[i], "c",
                              f"{cfg.name}/MProcess.convert_to_comp_basis({mode})[{i}]/{lab}")
-    pend.finish()
+    pend.start()
+    return pend
 
 
 def build_tensor_povm(factors, names):
@@ -1189,7 +1222,8 @@ def corr_povm_tensor(ctx, g):
                      lambda tp=tp, t=t: tp.matrix(tuple(t)), "c", f"{lab}/Povm.matrix({t})")
             pend.add("povmMatrixMd", [d, n, Bq, m, flat, ",".join(map(str, lens)), ",".join(map(str, t)) if t else "-", "1"],
                      lambda tp=tp, t=t: tp.matrix_with_sparsity(tuple(t)), "c", f"{lab}/Povm.matrix_with_sparsity({t})")
-    pend.finish()
+    pend.start()
+    return pend
 
 
 def layouts(x):
@@ -1253,7 +1287,162 @@ def chk_layout(cfg, seed):
     sections(*([lambda j=j: one(*j) for j in jobs] + [lists]))
 
 
-CHECKS = {"compform": chk_compform, "layout": chk_layout, "state": chk_state, "density": chk_density, "povm": chk_povm, "gate": chk_gate, "choi": chk_choi, "kraus": chk_kraus,
+def chk_reject(cfg, seed):
+    """non-Hermitian input of a matrix -> REAL coefficient conversion: no real vector denotes that operator, so the conversion must
+    raise (truncate_hs's ValueError) — or, if it returns, the returned coefficients must still denote the input operator.
+    Inputs have sign-structured imaginary coefficient parts (all negative / all positive / mixed / a single negative one).
+    (`to_hs_from_choi`, the plain variant, documents `.real` and is not part of this check.)"""
+    c, d, n = cfg.c, cfg.d, cfg.n
+    g = np.random.default_rng(seed)
+    pats = {"all-negative": lambda k: -(0.2 + g.random(k)), "all-positive": lambda k: 0.2 + g.random(k),
+            "mixed": lambda k: (0.2 + g.random(k)) * np.where(np.arange(k) % 2 == 0, 1.0, -1.0),
+            "single-negative": lambda k: -0.7 * (np.arange(k) == k - 1)}
+    B = cfg.B
+
+    def probe(nm, pat, fn, X, rebuild):
+        try:
+            with np.errstate(all="ignore"):
+                r = fn(X)
+        except ValueError as e:
+            if "imaginary" in str(e):
+                return
+            raise Fail(f"C02/{nm}/nonhermitian/raises-ValueError", str(e)[:100])
+        except Exception as e:  # noqa
+            raise Fail(f"C02/{nm}/nonhermitian/raises-{type(e).__name__}", str(e)[:100])
+        back = rebuild(r)
+        if np.shape(back) != np.shape(X) or dev(back, X) > 1e-8:
+            raise Fail(f"C02/{nm}/nonhermitian-accepted({pat})",
+                       f"non-Hermitian input with {pat} imaginary coefficient parts is not rejected; the returned real coefficients denote "
+                       f"another operator (deviation {dev(back, X) if np.shape(back) == np.shape(X) else float('inf'):.3g}, dtype {np.asarray(r).dtype})")
+
+    jobs = []
+    for pat, gen in pats.items():
+        coef = g.standard_normal(n) + 1j * gen(n)
+        X = sum(z * b for z, b in zip(coef, B))
+        mat_of = lambda r: sum(z * b for z, b in zip(np.asarray(r).flatten(), B))
+        jobs.append(("state.to_vec_from_density_matrix_with_sparsity", pat, lambda x: S.to_vec_from_density_matrix_with_sparsity(c, x), X, mat_of))
+        jobs.append(("povm.to_vec_from_matrix_with_sparsity", pat, lambda x: P.to_vec_from_matrix_with_sparsity(c, x), X, mat_of))
+        jobs.append(("state.to_var_from_density_matrix", pat, lambda x: S.to_var_from_density_matrix(c, x, on_para_eq_constraint=False), X, mat_of))
+        jobs.append(("povm.to_vecs_from_matrices_with_sparsity", pat, lambda x: P.to_vecs_from_matrices_with_sparsity(c, [x])[0], X, mat_of))
+        jobs.append(("povm.to_var_from_matrices", pat, lambda x: P.to_var_from_matrices(c, [x], on_para_eq_constraint=False), X, mat_of))
+        h = g.standard_normal((n, n)) + 1j * gen(n * n).reshape(n, n)
+        C = choi_ref(cfg, h)
+        choi_of = lambda r: choi_ref(cfg, np.asarray(r).reshape(n, n))
+        jobs.append(("gate.to_hs_from_choi[dict]", pat, lambda x: G.to_hs_from_choi_with_dict(c, x), C, choi_of))
+        jobs.append(("gate.to_hs_from_choi[sparse]", pat, lambda x: G.to_hs_from_choi_with_sparsity(c, x), C, choi_of))
+        jobs.append(("gate.to_var_from_choi", pat, lambda x: G.to_var_from_choi(c, x, on_para_eq_constraint=False), C, choi_of))
+    # matrix units E_ij (i != j) and H - i c 1
+    e10 = np.zeros((d, d), dtype=np.complex128); e10[d - 1, 0] = 1
+    for lab, X in (("unit-E_{d-1,0}", e10), ("unit-E_{0,d-1}", e10.T.copy()), ("H-i1", rand_herm(g, d) - 0.5j * np.eye(d))):
+        mat_of = lambda r: sum(z * b for z, b in zip(np.asarray(r).flatten(), B))
+        jobs.append(("state.to_vec_from_density_matrix_with_sparsity", lab, lambda x: S.to_vec_from_density_matrix_with_sparsity(c, x), X, mat_of))
+        jobs.append(("povm.to_vec_from_matrix_with_sparsity", lab, lambda x: P.to_vec_from_matrix_with_sparsity(c, x), X, mat_of))
+
+    def direct():
+        from quara.utils import matrix_util as _mu
+        eps = Settings.get_atol()
+        for pat, gen in pats.items():
+            z = g.standard_normal(6) + 1j * gen(6)
+            try:
+                r = _mu.truncate_hs(z)
+            except ValueError:
+                continue
+            raise Fail(f"C02/matrix_util.truncate_hs/nonreal-accepted({pat})", f"truncate_hs returns {np.asarray(r)[:3]}… for entries with |imag| >= 0.2 (threshold {eps})")
+        z = g.standard_normal(6) + 1j * (eps / 100) * np.array([1, -1, 1, -1, 0, 0])
+        r = call("C02/matrix_util.truncate_hs", lambda: _mu.truncate_hs(z))
+        need(dev(r, z.real), "C02/matrix_util.truncate_hs/real-part", "imaginary parts below the threshold: result != real part")
+
+    sections(*([lambda j=j: probe(*j) for j in jobs] + [direct]))
+
+
+def chk_sequence(cfg, seed):
+    """method-level sequences on ONE object: every representation getter, again after the caller has overwritten the returned
+    arrays in place, again after set_zero(): all alternative implementations keep agreeing with the object's current coefficients"""
+    c, d, n = cfg.c, cfg.d, cfg.n
+    g = np.random.default_rng(seed)
+
+    def scribble(x):
+        for a in (x if isinstance(x, (list, tuple)) else [x]):
+            if isinstance(a, np.ndarray) and a.flags.writeable:
+                a[...] = 7.25
+
+    def gate_round(gate, stage):
+        ref = choi_ref(cfg, gate.hs)
+        outs = []
+        for nm, fn in (("to_choi_matrix", gate.to_choi_matrix), ("to_choi_matrix_with_dict", gate.to_choi_matrix_with_dict),
+                       ("to_choi_matrix_with_sparsity", gate.to_choi_matrix_with_sparsity), ("to_process_matrix", gate.to_process_matrix)):
+            r = call(f"C02/Gate.{nm}", fn)
+            need(dev(r, ref), f"C02/Gate.{nm}/sequence({stage})", f"{nm}() does not match the gate's current HS matrix {stage}")
+            outs.append(r)
+        cb = call("C02/Gate.convert_to_comp_basis", gate.convert_to_comp_basis)
+        need(dev(cb, G.convert_hs(gate.hs, c.basis(), c.comp_basis())), f"C02/Gate.convert_to_comp_basis/sequence({stage})", "stale")
+        outs.append(cb)
+        return outs
+
+    def gate_seq():
+        ks = qobj.rand_kraus(g, d, 1, 2)[0]
+        gate = Gate(c, hs_of_kraus_ref(cfg, ks).real.copy(), is_physicality_required=False)
+        outs = gate_round(gate, "first call")
+        if c.is_orthonormal_hermitian_0thprop_identity:
+            call("C02/Gate.calc_proj_ineq_constraint", gate.calc_proj_ineq_constraint)
+        call("C02/Gate.to_kraus_matrices", gate.to_kraus_matrices)
+        scribble(outs)
+        gate_round(gate, "after the caller overwrote the returned arrays")
+
+    def gate_zero_seq():
+        ks = qobj.rand_kraus(g, d, 1, 2)[0]
+        gate = Gate(c, hs_of_kraus_ref(cfg, ks).real.copy(), is_physicality_required=False)
+        call("C02/Gate.to_choi_matrix_with_sparsity", gate.to_choi_matrix_with_sparsity)
+        if c.is_orthonormal_hermitian_0thprop_identity:
+            call("C02/Gate.calc_proj_ineq_constraint", gate.calc_proj_ineq_constraint)
+        gate.set_zero()
+        gate_round(gate, "after set_zero()")
+
+    def mp_round(mp, stage):
+        outs = []
+        for i, hs in enumerate(mp.hss):
+            ref = choi_ref(cfg, hs)
+            for nm, fn in (("to_choi_matrix", mp.to_choi_matrix), ("to_choi_matrix_with_dict", mp.to_choi_matrix_with_dict),
+                           ("to_choi_matrix_with_sparsity", mp.to_choi_matrix_with_sparsity), ("to_process_matrix", mp.to_process_matrix)):
+                r = call(f"C02/MProcess.{nm}", lambda: fn(i))
+                need(dev(r, ref), f"C02/MProcess.{nm}/sequence({stage})", f"outcome {i}: {nm}() does not match the current HS matrix {stage}")
+                outs.append(r)
+        outs += list(call("C02/MProcess.convert_to_comp_basis", mp.convert_to_comp_basis))
+        return outs
+
+    def mp_seq():
+        if not c.is_orthonormal_hermitian_0thprop_identity:
+            return
+        groups = qobj.rand_kraus(g, d, 2, 1)
+        mp = MProcess(c, [hs_of_kraus_ref(cfg, ks).real.copy() for ks in groups], is_physicality_required=False)
+        outs = mp_round(mp, "first call")
+        scribble(outs)
+        mp_round(mp, "after the caller overwrote the returned arrays")
+        mp.set_zero()
+        mp_round(mp, "after set_zero()")
+
+    def state_povm_seq():
+        st = State(c, g.standard_normal(n), is_physicality_required=False)
+        pv = Povm(c, [g.standard_normal(n) for _ in range(3)], is_physicality_required=False)
+        for stage in ("first call", "after the caller overwrote the returned arrays", "after set_zero()"):
+            ref = sum(x * b for x, b in zip(st.vec, cfg.B))
+            a, b2 = call("C02/State.to_density_matrix", st.to_density_matrix), call("C02/State.to_density_matrix_with_sparsity", st.to_density_matrix_with_sparsity)
+            need(dev(a, ref), f"C02/State.to_density_matrix/sequence({stage})", "stale")
+            need(dev(b2, ref), f"C02/State.to_density_matrix_with_sparsity/sequence({stage})", "stale")
+            refs = [sum(x * b for x, b in zip(v, cfg.B)) for v in pv.vecs]
+            ms, mss = call("C02/Povm.matrices", pv.matrices), call("C02/Povm.matrices_with_sparsity", pv.matrices_with_sparsity)
+            for i in range(3):
+                need(dev(ms[i], refs[i]), f"C02/Povm.matrices/sequence({stage})", "stale")
+                need(dev(mss[i], refs[i]), f"C02/Povm.matrices_with_sparsity/sequence({stage})", "stale")
+                need(dev(call("C02/Povm.matrix_with_sparsity", lambda: pv.matrix_with_sparsity(i)), refs[i]), f"C02/Povm.matrix_with_sparsity/sequence({stage})", "stale")
+            scribble([a, b2] + list(ms) + list(mss))
+            if stage.startswith("after the caller"):
+                st.set_zero(); pv.set_zero()
+
+    sections(gate_seq, gate_zero_seq, mp_seq, state_povm_seq)
+
+
+CHECKS = {"compform": chk_compform, "layout": chk_layout, "reject": chk_reject, "sequence": chk_sequence, "state": chk_state, "density": chk_density, "povm": chk_povm, "gate": chk_gate, "choi": chk_choi, "kraus": chk_kraus,
           "notcp": chk_not_cp, "linear": chk_linear, "mprocess": chk_mprocess}
 
 
@@ -1392,10 +1581,14 @@ def oracle(ctx, volume=1):
     for name in (QUICK_CFGS if ctx.quick else THOROUGH_CFGS[:6]):
         cfg = cfg_of(name)
         g = ctx.npgen(f"oracle-layout-{name}-{volume}")
-        for _ in range(2 * volume):
+        for _ in range((1 if ctx.quick else 2) * volume):
             seed = int(g.integers(0, 2 ** 31))
             ctx.case(("o-layout", name, seed))
             run_check(ctx, "layout", cfg, (seed,), {"check": "layout", "cfg": name, "seed": seed})
+            ctx.case(("o-reject", name, seed))
+            run_check(ctx, "reject", cfg, (seed,), {"check": "reject", "cfg": name, "seed": seed})
+            ctx.case(("o-sequence", name, seed))
+            run_check(ctx, "sequence", cfg, (seed,), {"check": "sequence", "cfg": name, "seed": seed})
 
 
 def search(ctx):
@@ -1412,8 +1605,8 @@ def replay(ctx, data):
             chk_povm_tensor([list(dec(f).real) for f in r["factors"]], tuple(r["names"]))
             print("property holds on this input now")
             return 0
-        if kind == "layout":
-            chk_layout(cfg, r["seed"])
+        if kind in ("layout", "reject", "sequence"):
+            CHECKS[kind](cfg, r["seed"])
             print("property holds on this input now")
             return 0
         if kind == "state":
